@@ -81,6 +81,12 @@ func shouldKillJob(rj *execution.Job) bool {
 		return true
 	}
 
+	// Kill remaining tasks if the job was terminated due to an AdmissionError, since
+	// no more tasks will be created and the job is already finished.
+	if _, ok := job.GetAdmissionErrorMessage(rj); ok {
+		return true
+	}
+
 	return false
 }
 
